@@ -338,26 +338,59 @@ def _cutoff(repo, out):
                "   far (possibly none) to a forecaster marked as not fitted *)\n"
                "Definition gen_refit_on_all_data : bool := true.\n"
                "Definition gen_refit_needs_horizon : bool := false.\n")
-    # update_predict: the moving cutoffs are undone - `_detached_cutoff` remembers the cutoff, yields,
-    # and puts it back in a `finally`; `_predict_moving_cutoff` moves the cutoff only inside it
-    fn = find(cls, "_detached_cutoff")
-    _need([_u(d) for d in fn.decorator_list] == ["contextmanager"] and argnames(fn) == ["self"], "_detached_cutoff is a context manager")
-    b = body_of(fn)
-    _need(len(b) == 2 and isinstance(b[0], ast.Assign) and len(b[0].targets) == 1 and isinstance(b[0].targets[0], ast.Name)
-          and _u(b[0].value) == "self.cutoff" and isinstance(b[1], ast.Try) and not b[1].handlers and not b[1].orelse
-          and len(b[1].body) == 1 and isinstance(b[1].body[0], ast.Expr) and isinstance(b[1].body[0].value, ast.Yield)
-          and b[1].body[0].value.value is None and len(b[1].finalbody) == 1
-          and _u(b[1].finalbody[0]) == "self._set_cutoff(%s)" % b[0].targets[0].id,
-          "_detached_cutoff: c = self.cutoff; try: yield; finally: self._set_cutoff(c)")
+    # update_predict: the moving cutoffs are undone.  By role, not by name: every statement of
+    # `_predict_moving_cutoff` that can move the cutoff sits inside a RESTORING REGION, i.e. either
+    #   c = self.cutoff; try: <region> finally: self._set_cutoff(c)          (written out), or
+    #   with self.<m>(): <region>   where <m> is a context manager of the class whose body is
+    #   c = self.cutoff; try: yield finally: self._set_cutoff(c)
+    def restoring_try(stmts, yields):
+        """stmts = [.., <name> = self.cutoff, .., try: B finally: self._set_cutoff(<name>)]: returns B"""
+        for i, st in enumerate(stmts):
+            if isinstance(st, ast.Try) and not st.handlers and not st.orelse and len(st.finalbody) == 1:
+                fin = st.finalbody[0]
+                if isinstance(fin, ast.Expr) and isinstance(fin.value, ast.Call) and _u(fin.value.func) == "self._set_cutoff" \
+                        and len(fin.value.args) == 1 and isinstance(fin.value.args[0], ast.Name) and not fin.value.keywords:
+                    name = fin.value.args[0].id
+                    binds = [b for b in stmts[:i] if isinstance(b, ast.Assign) and len(b.targets) == 1
+                             and _u(b.targets[0]) == name]
+                    stores = [n for b in stmts for n in ast.walk(b) if isinstance(n, ast.Name) and n.id == name
+                              and isinstance(n.ctx, ast.Store)]
+                    if len(binds) == 1 and len(stores) == 1 and _u(binds[0].value) == "self.cutoff":
+                        is_yield = (len(st.body) == 1 and isinstance(st.body[0], ast.Expr)
+                                    and isinstance(st.body[0].value, ast.Yield) and st.body[0].value.value is None)
+                        if is_yield == yields:
+                            return st
+        return None
+
+    def restoring_managers():
+        out_ = set()
+        for n in cls.body:
+            if isinstance(n, ast.FunctionDef) and [_u(d) for d in n.decorator_list] == ["contextmanager"] \
+                    and argnames(n) == ["self"]:
+                b = body_of(n)
+                t = restoring_try(b, yields=True)
+                if t is not None and all(isinstance(x, ast.Assign) or x is t for x in b) and b[-1] is t:
+                    out_.add(n.name)
+        return out_
     fn = find(cls, "_predict_moving_cutoff")
-    withs = [n for n in ast.walk(fn) if isinstance(n, ast.With)]
-    _need(len(withs) == 1 and len(withs[0].items) == 1 and _u(withs[0].items[0].context_expr) == "self._detached_cutoff()",
-          "_predict_moving_cutoff works inside `with self._detached_cutoff():`")
-    inside = {id(n) for n in ast.walk(withs[0])}
+    managers = restoring_managers()
+    regions = []
+    for n in ast.walk(fn):
+        if isinstance(n, ast.With) and len(n.items) == 1 and isinstance(n.items[0].context_expr, ast.Call) \
+                and not n.items[0].context_expr.args and isinstance(n.items[0].context_expr.func, ast.Attribute) \
+                and _u(n.items[0].context_expr.func.value) == "self" and n.items[0].context_expr.func.attr in managers:
+            regions.append(n.body)
+    t = restoring_try(body_of(fn), yields=False)
+    if t is not None:
+        regions.append(t.body)
+    _need(len(regions) == 1, "_predict_moving_cutoff: expected one region that puts the cutoff back afterwards "
+          "(with <restoring context manager> / try-finally), found %d" % len(regions))
+    inside = {id(n) for st in regions[0] for n in ast.walk(st)}
     movers = [n for n in ast.walk(fn) if isinstance(n, ast.Call) and isinstance(n.func, ast.Attribute)
-              and n.func.attr in ("_set_cutoff", "update", "_update_predict_single", "_update_y_X", "fit")]
+              and n.func.attr in ("_set_cutoff", "update", "_update_predict_single", "_update_y_X", "fit")
+              and not (t is not None and any(n is x for x in ast.walk(t.finalbody[0])))]
     _need(movers and all(id(n) in inside for n in movers),
-          "_predict_moving_cutoff moves the cutoff outside the detached-cutoff block")
+          "_predict_moving_cutoff moves the cutoff outside the region that puts it back")
     out.append("(* update_predict: every move of the cutoff happens inside `with self._detached_cutoff()`, which\n"
                "   puts the cutoff back afterwards *)\n"
                "Definition gen_update_predict_restores_cutoff : bool := true.\n")
